@@ -9,7 +9,8 @@ case = {"shares": [{"data": [[k, v], ...], "stamped": bool}, ...],
         "ops": [["tick"] | ["write", s, [[k, v], ...]] | ["change", s, [[k, v], ...]] |
                 ["push", s, entry] | ["append", s, k, x] | ["run"] | ["start"] | ["stop"]]}
 keys/tags are small ints (rendered f<k>, t<tag>); values ints or lists of ints;
-deck entries: {"m": [[k, int], ...]} (a mapping) or {"o": int} (not a mapping).
+deck entries: {"m": [[k, int], ...]} (a mapping: odict, or a plain dict with "plain": true) or
+{"o": None | int | str | [ints]} (not a mapping).
 result = {"file": [line...], "shares": [...]}   line = ["H", rule, [[tag, key|None]...]] |
          ["R", tick, [cell...]]  | ["B", raw]     cell = None | int | [ints]
 """
@@ -165,7 +166,11 @@ def run_case(case, workdir):
             shares[op[1]].change([("f%d" % k, list(v) if isinstance(v, list) else v) for k, v in op[2]])
         elif o == "push":
             e = op[2]
-            shares[op[1]].push(odict(("f%d" % k, v) for k, v in e["m"]) if "m" in e else e["o"])
+            if "m" in e:        # a mapping: odict, or a plain dict when e["plain"]
+                items = [("f%d" % k, v) for k, v in e["m"]]
+                shares[op[1]].push(dict(items) if e.get("plain") else odict(items))
+            else:               # not a mapping: None | int | str | list of ints, pushed as is
+                shares[op[1]].push(list(e["o"]) if isinstance(e["o"], list) else e["o"])
         elif o == "append":
             v = shares[op[1]].get("f%d" % op[2])
             if isinstance(v, (list, collections.deque)):     # (the model's Append is a no-op otherwise)
